@@ -16,28 +16,27 @@ VARIABLES phase, bs, dims
 vars == <<phase, bs, dims>>
 
 Magics == IF Level = 1 THEN {<<80, 50>>, <<80, 51>>, <<80, 53>>, <<80, 54>>, <<80, 52>>}
-          ELSE {<<80, 50>>, <<80, 51>>, <<80, 53>>, <<80, 54>>, <<80, 52>>, <<80, 55>>, <<80, 49>>, <<112, 54>>}
+          ELSE {<<80, 50>>, <<80, 51>>, <<80, 53>>, <<80, 54>>, <<80, 52>>, <<80, 55>>}
 
-\* " "  "\n"  " #c\n"   |  "\t\r"  "\n# 1\n "  ""  "#c\n"
+\* level 1: " "  "\n"  " #c\n"   level 2: " "  " #c\n"  "\t\r"  ""  "#c\n"
 Seps == IF Level = 1 THEN {<<32>>, <<10>>, <<32, 35, 99, 10>>}
-        ELSE {<<32>>, <<10>>, <<32, 35, 99, 10>>, <<9, 13>>, <<10, 35, 32, 49, 10, 32>>, <<>>, <<35, 99, 10>>}
+        ELSE {<<32>>, <<32, 35, 99, 10>>, <<9, 13>>, <<>>, <<35, 99, 10>>}
 
 \* "1" "2" "3" "0" "65536"  |  "4294967295" "99999999999" "x" "-1" ""
 Nums == IF Level = 1 THEN {<<49>>, <<50>>, <<51>>, <<48>>, <<54, 53, 53, 51, 54>>}
-        ELSE {<<49>>, <<50>>, <<51>>, <<48>>, <<54, 53, 53, 51, 54>>,
-              <<52, 50, 57, 52, 57, 54, 55, 50, 57, 53>>,
-              <<57, 57, 57, 57, 57, 57, 57, 57, 57, 57, 57>>, <<120>>, <<45, 49>>, <<>>}
+        ELSE {<<49>>, <<51>>, <<48>>, <<52, 50, 57, 52, 57, 54, 55, 50, 57, 53>>,
+              <<57, 57, 57, 57, 57, 57, 57, 57, 57, 57, 57>>, <<120>>}
 
 \* "255" "1"  |  "65535" "256"
 Maxs == IF Level = 1 THEN {<<50, 53, 53>>, <<49>>}
-        ELSE {<<50, 53, 53>>, <<49>>, <<54, 53, 53, 51, 53>>, <<50, 53, 54>>}
+        ELSE {<<50, 53, 53>>, <<54, 53, 53, 51, 53>>, <<50, 53, 54>>}
 
 \* " " "\n" ""  |  "  " "#"
 Terms == IF Level = 1 THEN {<<32>>, <<10>>, <<>>}
-         ELSE {<<32>>, <<10>>, <<>>, <<32, 32>>, <<35>>}
+         ELSE {<<32>>, <<>>, <<32, 32>>, <<35>>}
 
 DataKinds == IF Level = 1 THEN {"exact", "short", "ws", "none"}
-             ELSE {"exact", "short", "ws", "none", "surplus", "bad"}
+             ELSE {"exact", "short", "ws", "surplus", "bad"}
 
 SmallVal(tok) == IF Len(tok) = 1 /\ IsDigit(tok[1]) THEN tok[1] - 48 ELSE 1
 
